@@ -76,6 +76,14 @@ func (vc *VC) execInstr(fx *FuncCtx, in ssa.Instruction, st *State, fr *Frame) {
 			v = st.toIface(v)
 		}
 		st.store(p, v)
+		if al, ok := x.Addr.(*ssa.Alloc); ok && al.Heap && p.Kind == PHeap && p.Idx == nil && len(p.Alts) == 0 && writeOnce(al) {
+			// a local that is captured by closures and assigned exactly once (at its declaration): whatever the
+			// closures and goroutines do, it keeps that value
+			if vc.frozen == nil {
+				vc.frozen = map[*Term]Val{}
+			}
+			vc.frozen[p.Base] = v
+		}
 	case *ssa.UnOp:
 		fr.regs[x] = vc.unop(fx, x, st, fr)
 	case *ssa.BinOp:
@@ -1015,6 +1023,8 @@ func (vc *VC) mapLen(st *State, mt *types.Map, m *Term) *Term {
 	ki := vc.reg.get(mapKey(mt)+"#len", 1, IntSort, nil)
 	l := Select(st.heapVar(ki), m)
 	vc.assume(st, Ge(l, IntC(0)))
+	// a map of length 0 has no keys
+	vc.assume(st, Implies(Eq(l, IntC(0)), Eq(vc.mapDom(st, mt, m), ConstArray(ArraySort(keySortOf(mt), BoolSort), False()))))
 	return l
 }
 
@@ -1076,6 +1086,7 @@ func (vc *VC) mapStore(st *State, mt *types.Map, m, k *Term, v Val) {
 	st.heap[kl.Name] = Store(hl, m, Add(Select(hl, m), Ite(was, IntC(0), IntC(1))))
 	st.heap[kd.Name] = Store(st.heapVar(kd), m, Store(dom, k, True()))
 	vc.noteWrite(st, PHeap, kd.Name, m, k)
+	vc.noteWrite(st, PHeap, kl.Name, m, nil)
 	if _, isIface := under(mt.Elem()).(*types.Interface); isIface {
 		v = st.toIface(v)
 	}
@@ -1092,6 +1103,7 @@ func (vc *VC) mapDelete(st *State, mt *types.Map, m, k *Term) {
 	st.heap[kl.Name] = Store(hl, m, Sub(Select(hl, m), Ite(was, IntC(1), IntC(0))))
 	st.heap[kd.Name] = Store(st.heapVar(kd), m, Store(dom, k, False()))
 	vc.noteWrite(st, PHeap, kd.Name, m, k)
+	vc.noteWrite(st, PHeap, kl.Name, m, nil)
 }
 
 // ---------- range ----------
@@ -1169,4 +1181,73 @@ func (vc *VC) rangeNext(fx *FuncCtx, x *ssa.Next, st *State, fr *Frame) Val {
 	}
 	v := st.load(vc.mapValPtr(mt, m, k))
 	return &TupleV{Vs: []Val{okc, kv, v}}
+}
+
+
+// writeOnce: the heap-allocated local al (a variable captured by closures) is stored to exactly once, in the entry
+// block of its function, and every other use - in the function and, through the closures' free variables, in the
+// closures - only reads it.
+var writeOnceMemo = map[*ssa.Alloc]bool{}
+
+func writeOnce(al *ssa.Alloc) bool {
+	if v, ok := writeOnceMemo[al]; ok {
+		return v
+	}
+	r := false
+	defer func() { writeOnceMemo[al] = r }()
+	fn := al.Parent()
+	if fn == nil || len(fn.Blocks) == 0 || al.Block() != fn.Blocks[0] {
+		return false
+	}
+	if _, isStruct := al.Type().(*types.Pointer).Elem().Underlying().(*types.Struct); isStruct {
+		return false
+	}
+	if _, isArr := al.Type().(*types.Pointer).Elem().Underlying().(*types.Array); isArr {
+		return false
+	}
+	stores := 0
+	var readOnly func(v ssa.Value, top bool) bool
+	readOnly = func(v ssa.Value, top bool) bool {
+		refs := v.Referrers()
+		if refs == nil {
+			return false
+		}
+		for _, in := range *refs {
+			switch x := in.(type) {
+			case *ssa.Store:
+				if x.Addr != v || x.Val == v {
+					return false
+				}
+				if !top || x.Block() != fn.Blocks[0] {
+					return false
+				}
+				stores++
+			case *ssa.UnOp:
+				if x.Op != token.MUL {
+					return false
+				}
+			case *ssa.DebugRef:
+			case *ssa.MakeClosure:
+				cf, ok := x.Fn.(*ssa.Function)
+				if !ok {
+					return false
+				}
+				for i, b := range x.Bindings {
+					if b == v {
+						if i >= len(cf.FreeVars) || !readOnly(cf.FreeVars[i], false) {
+							return false
+						}
+					}
+				}
+			default:
+				return false
+			}
+		}
+		return true
+	}
+	if !readOnly(al, true) || stores != 1 {
+		return false
+	}
+	r = true
+	return true
 }
